@@ -339,6 +339,21 @@ func c13R3(c *Ctx) {
 		return false
 	}, func(in ssa.Instruction) bool { return in == store })
 	c.check(hit == nil, "wrapOutput/status-before-forward", c.ipos(store), "the trigger chunk is forwarded only after the status is handshaking", "the trigger chunk can be forwarded before the status is handshaking", c.pathStr(path)...)
+	// universal forms: once the status says handshaking the worker that will end the handshake is always started (else
+	// the status stays handshaking and everything is parked for good); and between the detection and the first forward
+	// or worker start on the trigger side the status store always comes first
+	{
+		isGoHS := func(in ssa.Instruction) bool {
+			g, ok := in.(*ssa.Go)
+			return ok && calleeID(&g.Call) == "(*trzsz.TrzszRelay).handshake"
+		}
+		isRead := func(in ssa.Instruction) bool {
+			call, ok := in.(*ssa.Call)
+			return ok && call.Call.IsInvoke() && call.Call.Method.Name() == "Read"
+		}
+		hitG, pathG := reachAvoid(store, func(in ssa.Instruction) bool { return isRead(in) || isReturn(in) }, isGoHS)
+		c.check(hitG == nil, "wrapOutput/handshaking=>worker-started", c.ipos(store), "after the status was set to handshaking the handshake worker is always started before the next read", "the status can be set to handshaking without the handshake worker being started: nothing ever ends the handshake and all traffic stays parked", c.pathStr(pathG)...)
+	}
 }
 
 func c13R4(c *Ctx) {
